@@ -174,3 +174,10 @@ pub broadcast axiom fn axiom_string_view_injective(a: String, b: String)
     requires #[trigger] a@ == #[trigger] b@
     ensures a == b;
 
+
+pub broadcast proof fn lemma_string_of_view(x: String)
+    ensures #[trigger] string_of(x@) == x
+{
+    axiom_string_of(x@);
+    axiom_string_view_injective(string_of(x@), x);
+}
